@@ -358,10 +358,11 @@ def wrap_keeps_class(ctx):
     cfg = ctx.cfg(u)
     exc = u.params[1]
     # bases
-    bases = [n for n in u.own_nodes() if isinstance(n, ast.Assign) and is_name(n.targets[0])
-             and isinstance(n.value, (ast.IfExp, ast.Tuple))]
-    ctx.require(bases, 'wrap(): bases expression not found')
-    b = bases[0].value
+    # the second argument of the 3-argument type() call that makes the wrapper class
+    mk = [c for c in calls_in(u) if is_name(c.func, 'type') and len(c.args) == 3]
+    ctx.require(len(mk) == 1, 'wrap(): wrapper class construction type(name, bases, ns) not found')
+    b = deref(cfg, cfg.node_containing(mk[0]), mk[0].args[1])
+    ctx.require(isinstance(b, (ast.IfExp, ast.Tuple)), 'wrap(): bases expression not found')
     tvars = {n.targets[0].id for n in u.own_nodes() if isinstance(n, ast.Assign) and is_name(n.targets[0])
              and isinstance(n.value, ast.Call) and is_name(n.value.func, 'type') and len(n.value.args) == 1
              and is_name(n.value.args[0], exc)}
